@@ -413,6 +413,9 @@ func c03() int {
 	// every text of a family gets its own program through one compilation cache (c08.go)
 	cov["cache_key_family"] = c08KeyFamily(rep)
 	cov["api_amount_cases"], cov["api_amount_accepted"], cov["api_amount_refused"] = apiCases, apiAccepted, apiRefused
+	// scripts on the REAL store, against the stand-in stores of the enumerations above (realstore.go)
+	rsH, rsS := realStoreConformance(rep, "")
+	cov["realstore_histories"], cov["realstore_steps"] = rsH, rsS
 	return rep.Finish(cov)
 }
 
